@@ -7,6 +7,7 @@ import (
 	"bytes"
 	"context"
 	"crypto/x509"
+	"encoding/hex"
 	"encoding/json"
 	"errors"
 	"io"
@@ -35,6 +36,8 @@ func (failResolver) LookupCNAME(ctx context.Context, host string) (string, error
 
 type vtMsg interface{ MarshalVT() ([]byte, error) }
 
+type tokRec struct{ tok, kind string }
+
 var tunnelMethods = []string{"Ping", "RegisterIdentity", "GetNodes", "GenerateHostname", "RegisteredHostnames",
 	"PublishTunnel", "UnpublishTunnel", "ReleaseTunnel", "AcmeInstruction", "AcmeValidate"}
 var keylessMethods = []string{"GetCertificate", "Sign"}
@@ -55,7 +58,10 @@ func main() {
 	r.Rule = "one case = (method, caller kind, state of the caller's token record, request body kind, datagram outcome); non-trivial = distinct tuple + token text; " +
 		"all 12 service methods + an unknown one x {no delegation, no certificate, malformed subject, unknown subject version, non-numeric id, token} x " +
 		"{absent, empty, undecodable, Get error, registered, old-format} x {valid, empty, garbage, json} bodies; the DHT is pre-loaded with a victim client " +
-		"(token record, hostnames, routes, custom hostname) and compared before/after"
+		"(token record, hostnames, routes, custom hostname) and compared before/after; plus `callcn`: every method x ~36 certificate-subject shapes " +
+		"(raw CommonName through the real pki.ExtractCertificateIdentity: tokens containing the separator, empty segments, trailing/leading separators, v2 subjects with extra " +
+		"segments, v1/v2 confusion, malformed / overflowing ids) x sets of client-token records in which a token related to the caller's (prefix up to a separator, last segment, " +
+		"hash only, longer token) is registered while the caller's own is not"
 	rng := hlib.NewRng(r.Seed)
 	logger := zap.NewNop()
 	ctx, cancel := context.WithCancel(context.Background())
@@ -89,6 +95,23 @@ func main() {
 	victim := &protocol.Node{Id: 500, Address: "alice-token", Rendezvous: true}
 	put := func(k string, v []byte) { node.KV.Put(ctx, []byte(k), v) }
 	mustVT := func(m vtMsg) []byte { b, _ := m.MarshalVT(); return b }
+	putRec := func(tok string, rec string) {
+		key := tun.ClientTokenKey(&protocol.ClientToken{Token: []byte(tok)})
+		switch rec {
+		case "empty":
+			put(key, []byte{})
+		case "undecodable":
+			put(key, []byte{0xff, 0xff, 0xff})
+		case "kverr":
+			node.FailGet[key] = errors.New("ring unavailable")
+		case "kverr-retryable": // what the lookup returns during a join/leave hand-off or on a timeout
+			node.FailGet[key] = hlibPickErr()
+		case "client":
+			put(key, mustVT(&protocol.Node{Id: 42, Address: tok, Rendezvous: true}))
+		case "oldclient":
+			put(key, mustVT(&protocol.Node{Id: 42}))
+		}
+	}
 	seed := func(callerTok string, rec string) {
 		node.Reset()
 		dst := &protocol.TunnelDestination{Chord: chordID, Tunnel: tunnelID}
@@ -100,21 +123,7 @@ func main() {
 		route := &protocol.TunnelRoute{ClientDestination: victim, ChordDestination: chordID, TunnelDestination: tunnelID, Hostname: victimHost}
 		put(tun.RoutingKey(victimHost, 1), mustVT(route))
 		put(tun.CustomHostnameKey(customHost), mustVT(&protocol.CustomHostname{ClientIdentity: victim, ClientToken: victimTok}))
-		key := tun.ClientTokenKey(&protocol.ClientToken{Token: []byte(callerTok)})
-		switch rec {
-		case "empty":
-			put(key, []byte{})
-		case "undecodable":
-			put(key, []byte{0xff, 0xff, 0xff})
-		case "kverr":
-			node.FailGet[key] = errors.New("ring unavailable")
-		case "kverr-retryable": // what the lookup returns during a join/leave hand-off or on a timeout
-			node.FailGet[key] = hlibPickErr()
-		case "client":
-			put(key, mustVT(&protocol.Node{Id: 42, Address: callerTok, Rendezvous: true}))
-		case "oldclient":
-			put(key, mustVT(&protocol.Node{Id: 42}))
-		}
+		putRec(callerTok, rec)
 		node.Mut.Store(0)
 	}
 
@@ -148,26 +157,11 @@ func main() {
 		return &protocol.ClientPingRequest{}
 	}
 
-	call := func(m, caller, rec, body string, dgramOK bool, tok string, garbage []byte) {
-		if caller != "tok" {
-			rec = "na"
-		}
-		seed(tok, rec)
-		tt.DatagramOK.Store(dgramOK)
-		var cert *x509.Certificate
-		switch caller {
-		case "badsubject":
-			cert = rig.Cert("not-a-specter-subject")
-		case "badversion":
-			cert = rig.Cert("v9:42:" + tok)
-		case "panicid":
-			cert = rig.Cert("v1:notanumber:" + tok)
-		case "tok":
-			cert = rig.Cert("v1:42:" + tok)
-		}
-		before := node.Snapshot()
+	// invoke serves one request through the real stack (or, without delegation, the hook directly) and
+	// returns the canonical response code.
+	invoke := func(m string, nodeleg bool, cert *x509.Certificate, body string, garbage []byte) string {
 		code := "?"
-		if caller == "nodeleg" {
+		if nodeleg {
 			// no HTTP path can produce this context: call the hook directly
 			func() {
 				defer func() {
@@ -191,58 +185,84 @@ func main() {
 			if !known {
 				code = "bad_route" // twirp would not have routed, the hook would not have run
 			}
-		} else {
-			svc := "TunnelService"
-			for _, k := range keylessMethods {
-				if k == m {
-					svc = "KeylessService"
-				}
-			}
-			var payload []byte
-			ctype := "application/protobuf"
-			switch body {
-			case "valid":
-				payload = mustVT(request(m, victimHost))
-			case "empty":
-			case "garbage":
-				payload = garbage
-			case "json":
-				ctype = "application/json"
-				payload = []byte(`{"hostname":"` + victimHost + `"}`)
-			}
-			curCert = cert
-			req, _ := http.NewRequest("POST", "http://tunnel/twirp/protocol."+svc+"/"+m, bytes.NewReader(payload))
-			req.Header.Set("Content-Type", ctype)
-			resp, err := client.Do(req)
-			if err != nil {
-				code = "transport-error"
-			} else {
-				b, _ := io.ReadAll(resp.Body)
-				resp.Body.Close()
-				var te struct {
-					Code string `json:"code"`
-				}
-				switch {
-				case resp.StatusCode == 200:
-					code = "ok"
-				case json.Unmarshal(b, &te) == nil && te.Code != "":
-					code = te.Code
-				case resp.StatusCode == 500:
-					code = "panic"
-				default:
-					code = "http" + hlib.F("%d", resp.StatusCode)
-				}
+			return code
+		}
+		svc := "TunnelService"
+		for _, k := range keylessMethods {
+			if k == m {
+				svc = "KeylessService"
 			}
 		}
-		changed := "0"
+		var payload []byte
+		ctype := "application/protobuf"
+		switch body {
+		case "valid":
+			payload = mustVT(request(m, victimHost))
+		case "empty":
+		case "garbage":
+			payload = garbage
+		case "json":
+			ctype = "application/json"
+			payload = []byte(`{"hostname":"` + victimHost + `"}`)
+		}
+		curCert = cert
+		req, _ := http.NewRequest("POST", "http://tunnel/twirp/protocol."+svc+"/"+m, bytes.NewReader(payload))
+		req.Header.Set("Content-Type", ctype)
+		resp, err := client.Do(req)
+		if err != nil {
+			return "transport-error"
+		}
+		b, _ := io.ReadAll(resp.Body)
+		resp.Body.Close()
+		var te struct {
+			Code string `json:"code"`
+		}
+		switch {
+		case resp.StatusCode == 200:
+			code = "ok"
+		case json.Unmarshal(b, &te) == nil && te.Code != "":
+			code = te.Code
+		case resp.StatusCode == 500:
+			code = "panic"
+		default:
+			code = "http" + hlib.F("%d", resp.StatusCode)
+		}
+		return code
+	}
+	changedSince := func(before string) string {
 		if node.Snapshot() != before || node.Mut.Load() != 0 {
-			changed = "1"
+			return "1"
 		}
-		d := "ok"
-		if !dgramOK {
-			d = "fail"
+		return "0"
+	}
+	dgramTok := func(ok bool) string {
+		if ok {
+			return "ok"
 		}
-		lhs := "call " + m + " " + caller + " " + rec + " " + body + " " + d
+		return "fail"
+	}
+
+	call := func(m, caller, rec, body string, dgramOK bool, tok string, garbage []byte) {
+		if caller != "tok" {
+			rec = "na"
+		}
+		seed(tok, rec)
+		tt.DatagramOK.Store(dgramOK)
+		var cert *x509.Certificate
+		switch caller {
+		case "badsubject":
+			cert = rig.Cert("not-a-specter-subject")
+		case "badversion":
+			cert = rig.Cert("v9:42:" + tok)
+		case "panicid":
+			cert = rig.Cert("v1:notanumber:" + tok)
+		case "tok":
+			cert = rig.Cert("v1:42:" + tok)
+		}
+		before := node.Snapshot()
+		code := invoke(m, caller == "nodeleg", cert, body, garbage)
+		changed := changedSince(before)
+		lhs := "call " + m + " " + caller + " " + rec + " " + body + " " + dgramTok(dgramOK)
 		r.Emit(lhs, code+" "+changed)
 		r.Case(lhs + " " + tok + hlib.Hex(garbage))
 		r.Count("method:" + m)
@@ -250,10 +270,54 @@ func main() {
 		r.Count("code:" + code)
 	}
 
+	// callCN: the caller presents a verified certificate with exactly the CommonName cn — the token the
+	// server acts on is whatever the REAL pki.ExtractCertificateIdentity makes of it; recs are all the
+	// client-token records in the DHT besides the victim fixture.
+	callCN := func(shape, m, cn string, recs []tokRec, body string, dgramOK bool, garbage []byte) {
+		seed("", "na")
+		uniq := recs[:0:0]
+		for _, tr := range recs { // one record per token
+			dup := false
+			for _, u := range uniq {
+				dup = dup || u.tok == tr.tok
+			}
+			if !dup {
+				uniq = append(uniq, tr)
+				putRec(tr.tok, tr.kind)
+			}
+		}
+		recs = uniq
+		node.Mut.Store(0)
+		tt.DatagramOK.Store(dgramOK)
+		before := node.Snapshot()
+		code := invoke(m, false, rig.Cert(cn), body, garbage)
+		changed := changedSince(before)
+		var rs []string
+		for _, tr := range recs {
+			rs = append(rs, hlib.Hex([]byte(tr.tok))+"="+tr.kind)
+		}
+		rtxt := "-"
+		if len(rs) > 0 {
+			rtxt = strings.Join(rs, ",")
+		}
+		lhs := "callcn " + m + " " + hlib.Hex([]byte(cn)) + " " + rtxt + " " + body + " " + dgramTok(dgramOK)
+		r.Emit(lhs, code+" "+changed)
+		r.Case(lhs + " " + hlib.Hex(garbage))
+		r.Count("method:" + m)
+		r.Count("subject:" + shape)
+		r.Count("code:" + code)
+	}
+
 	if r.Replay != "" {
 		for _, t := range r.ReplayLines() {
 			if t[0] == "call" && len(t) == 6 {
 				call(t[1], t[2], t[3], t[4], t[5] == "ok", "replay-token", []byte{0xff, 0x01})
+			}
+			if t[0] == "callcn" && len(t) == 6 {
+				cn, recs, ok := parseCN(t[2], t[3])
+				if ok {
+					callCN("replay", t[1], cn, recs, t[4], t[5] == "ok", []byte{0xff, 0x01})
+				}
 			}
 		}
 		r.Finish()
@@ -293,6 +357,137 @@ func main() {
 			}
 		}
 	}
-	_ = strings.TrimSpace
+	// --- certificate subjects through the real identity extraction ------------------------------------
+	// Every shape is a (CommonName, client-token records) pair built around a fresh token T; the records
+	// are chosen so that what the caller's subject REALLY carries and what a sloppier reading of the subject
+	// (cut at another separator, drop a segment, confuse v1/v2, ignore a suffix) would make of it differ in
+	// registration status.
+	tokAlpha := "ABCDEFGHIJKLMNOPQRSTUVWXYZabcdefghijklmnopqrstuvwxyz0123456789+/=-_"
+	word := func(min, max int) string {
+		n := min + rng.Intn(max-min+1)
+		b := make([]byte, n)
+		for i := range b {
+			b[i] = tokAlpha[rng.Intn(len(tokAlpha))]
+		}
+		return string(b)
+	}
+	type subjCase struct {
+		shape string
+		cn    string
+		recs  []tokRec
+	}
+	regKind := func() string {
+		if rng.Chance(25) {
+			return "oldclient"
+		}
+		return "client"
+	}
+	subjects := func() []subjCase {
+		T := word(4, 24)
+		if rng.Chance(30) { // the base token itself contains separators
+			T = word(1, 8) + ":" + word(1, 8)
+		}
+		X := word(1, 10)
+		id := hlib.F("%d", rng.U64()>>uint(rng.Intn(64)))
+		H := word(20, 43)
+		v1 := "v1:" + id + ":"
+		v2 := "v2:" + id + ":" + H
+		k := regKind
+		cs := []subjCase{
+			{"v1-registered", v1 + T, []tokRec{{T, k()}}},
+			{"v1-registered-with-sep", v1 + T + ":" + X, []tokRec{{T + ":" + X, k()}}},
+			{"v1-suffix-of-registered", v1 + T + ":" + X, []tokRec{{T, k()}}},
+			{"v1-suffix-of-registered", v1 + T + ":" + X + ":" + word(1, 4), []tokRec{{T, k()}, {T + ":" + X, "absent"}}},
+			{"v1-trailing-sep", v1 + T + ":", []tokRec{{T, k()}}},
+			{"v1-only-sep", v1 + ":", []tokRec{{"", k()}}},
+			{"v1-leading-sep", v1 + ":" + T, []tokRec{{"", k()}, {T, k()}}},
+			{"v1-empty-segment", v1 + T + "::" + X, []tokRec{{T, k()}, {T + ":" + X, k()}, {X, k()}}},
+			{"v1-last-segment-registered", v1 + X + ":" + T, []tokRec{{T, k()}}},
+			{"v1-longer-registered", v1 + T, []tokRec{{T + ":" + X, k()}, {T + X, k()}}},
+			{"v1-plain-prefix", v1 + T + X, []tokRec{{T, k()}}},
+			{"v1-empty-token", v1, []tokRec{{"", k()}}},
+			{"v1-empty-token", v1, nil},
+			{"v1-sep-in-id", "v1:" + id + ":" + id + ":" + T, []tokRec{{T, k()}, {id, k()}}},
+			{"v1-subject-as-token", v1 + T, []tokRec{{v1 + T, k()}}},
+			{"v1-record-" + []string{"absent", "empty", "undecodable", "kverr", "kverr-retryable"}[rng.Intn(5)], v1 + T + ":" + X, nil},
+			{"v2-registered", v2, []tokRec{{v2, k()}}},
+			{"v2-registered", v2 + ":" + X, []tokRec{{v2 + ":" + X, k()}}},
+			{"v2-suffix-of-registered", v2 + ":" + X, []tokRec{{v2, k()}, {H, k()}}},
+			{"v2-trailing-sep", v2 + ":", []tokRec{{v2, k()}}},
+			{"v2-hash-registered", v2, []tokRec{{H, k()}, {id + ":" + H, k()}}},
+			{"v2-prefix-of-registered", v2, []tokRec{{v2 + ":" + X, k()}}},
+			{"v2-empty-hash", "v2:" + id + ":", []tokRec{{"", k()}}},
+			{"two-parts", "v1:" + T, []tokRec{{T, k()}, {"", k()}}},
+			{"two-parts", "v2:" + id, []tokRec{{"v2:" + id, k()}, {"", k()}}},
+			{"one-part", T, []tokRec{{T, k()}}},
+			{"empty-subject", "", []tokRec{{"", k()}}},
+			{"only-seps", ":::", []tokRec{{"", k()}, {":", k()}}},
+			{"empty-version", ":" + id + ":" + T, []tokRec{{T, k()}}},
+			{"unknown-version", []string{"v3", "V1", "v", "v11", " v1", "v1 "}[rng.Intn(6)] + ":" + id + ":" + T, []tokRec{{T, k()}}},
+			{"id-empty", "v1::" + T, []tokRec{{T, k()}}},
+			{"id-not-number", "v" + []string{"1", "2"}[rng.Intn(2)] + ":" + []string{"+1", "-1", "0x1f", "1_0", "1e3", " 7", "7 ", "x"}[rng.Intn(8)] + ":" + T, []tokRec{{T, k()}}},
+			{"id-overflow", "v1:18446744073709551616:" + T, []tokRec{{T, k()}}},
+			{"id-max", "v1:18446744073709551615:" + T + ":" + X, []tokRec{{T, k()}}},
+			{"id-max", "v1:18446744073709551615:" + T, []tokRec{{T, k()}}},
+			{"id-leading-zero", "v1:00" + id + ":" + T, []tokRec{{T, k()}}},
+		}
+		// the record state of the caller's own (real) token for the record-* shape
+		for i := range cs {
+			if strings.HasPrefix(cs[i].shape, "v1-record-") {
+				kind := strings.TrimPrefix(cs[i].shape, "v1-record-")
+				cs[i].recs = []tokRec{{T, k()}, {T + ":" + X, kind}}
+			}
+		}
+		return cs
+	}
+	cnRounds := 1
+	if r.Thorough() {
+		cnRounds = 10
+	}
+	for round := 0; round < cnRounds; round++ {
+		for _, m := range methods {
+			for _, sc := range subjects() {
+				b := "valid"
+				if rng.Chance(25) {
+					b = bodies[rng.Intn(len(bodies))]
+				}
+				dg := true
+				if m == "RegisterIdentity" {
+					dg = rng.Bool()
+				}
+				callCN(sc.shape, m, sc.cn, sc.recs, b, dg, rng.Bytes(1+rng.Intn(40)))
+			}
+		}
+	}
 	r.Finish()
+}
+
+// parseCN decodes the <hex CommonName> and <records> tokens of a recorded callcn line.
+func parseCN(cnHex, recTxt string) (string, []tokRec, bool) {
+	unhex := func(h string) (string, bool) {
+		if h == "-" {
+			return "", true
+		}
+		b, err := hex.DecodeString(h)
+		return string(b), err == nil
+	}
+	cn, ok := unhex(cnHex)
+	if !ok {
+		return "", nil, false
+	}
+	var recs []tokRec
+	if recTxt != "-" {
+		for _, item := range strings.Split(recTxt, ",") {
+			hk := strings.SplitN(item, "=", 2)
+			if len(hk) != 2 {
+				return "", nil, false
+			}
+			t, ok := unhex(hk[0])
+			if !ok {
+				return "", nil, false
+			}
+			recs = append(recs, tokRec{t, hk[1]})
+		}
+	}
+	return cn, recs, true
 }
